@@ -432,15 +432,32 @@ func runC17(c c17Case) kit.Result {
 		return res
 	}
 	var midID *string
+	midBlocked := false
 	func() {
 		defer func() {
 			if r := recover(); r != nil {
 				res.Err = fmt.Errorf("second restore panicked: %v", r)
 			}
 		}()
-		w.Z.Db.RestoreFromReader(&midStreamReader{data: data2, at: len(data2) / 2, hook: func() { midID, _ = w.Z.Db.GetSnapshotId() }})
+		w.Z.Db.RestoreFromReader(&midStreamReader{data: data2, at: len(data2) / 2, hook: func() {
+			// a read request made while the snapshot is still streaming in is served from the database as it is
+			done := make(chan *string, 1)
+			go func() {
+				id, _ := w.Z.Db.GetSnapshotId()
+				done <- id
+			}()
+			select {
+			case midID = <-done:
+			case <-time.After(5 * time.Second):
+				midBlocked = true
+			}
+		}})
 	}()
 	if res.Err != nil {
+		return res
+	}
+	if midBlocked {
+		res.Err = fmt.Errorf("a read request (GetSnapshotId) made while a snapshot was streaming in for RestoreFromReader did not return within 5 s: the database is blocked for the whole transfer")
 		return res
 	}
 	if got, err := w.Z.Db.GetSnapshotId(); err != nil || got == nil || *got != id2 {
